@@ -341,3 +341,63 @@ def plan_C16(chk, tier, seed):
 
 
 PLANS.update({"C15": plan_C15, "C16": plan_C16})
+
+
+def drive_and_validate(chk, cfg, driver, n, seed, props_by_op, run, shards=4):
+    """impl -> spec: run a seeded driver against the real code, validate every event with TLC."""
+    binp = build(cfg)
+    out = os.path.join(WORK, "tlc", run + ".events.ndjson")
+    r = sh([binp, "drive", driver, str(seed), str(n), out])
+    if r.returncode != 0:
+        raise ToolError("driver %s failed: %s" % (driver, r.stdout[-2000:]))
+    events = [json.loads(l) for l in open(out)]
+    for e in events:
+        e["cfg"] = cfg
+        e["in"]["props"] = props_by_op.get(e["op"], [])
+    log("driver %s[%s]: %d events" % (driver, cfg, len(events)))
+    # shard over parallel TLC processes
+    import concurrent.futures
+    shards = max(1, min(shards, (len(events) + 199) // 200))
+    per = (len(events) + shards - 1) // shards
+    chunks = [events[i * per:(i + 1) * per] for i in range(shards)]
+    verdicts, stats = {}, []
+    with concurrent.futures.ThreadPoolExecutor(max_workers=shards) as ex:
+        futs = [ex.submit(validate, cfg, ch, "%s.s%d" % (run, i)) for i, ch in enumerate(chunks) if ch]
+        for f in futs:
+            v, st = f.result()
+            verdicts.update(v)
+            stats += st
+    for st in stats:
+        chk.add_tlc(st)
+    chk.validated += len(events)
+    nunspec = 0
+    for e in events:
+        v = verdicts[e["line"]]
+        if v.get("unspec"):
+            nunspec += 1
+        if chk.prop in v["violated"]:
+            what = "%s event rejected by the trace specification: outcome=%s violated=%s msg=%s" % (
+                e["op"], e["outcome"], v["violated"], e.get("msg", ""))
+            chk.violation(e, what)
+    if events:
+        chk.sample({k: events[0][k] for k in ("op", "outcome", "in", "obs", "cfg")})
+    chk.extra["unspecified_events"] = chk.extra.get("unspecified_events", 0) + nunspec
+    if len(events) and nunspec > 0.2 * len(events):
+        raise ToolError("more than 20%% of the events of %s ended in an unspecified region (%d of %d)" % (run, nunspec, len(events)))
+    return events, verdicts
+
+
+def plan_C19(chk, tier, seed):
+    n = 2000 if tier == "quick" else 60000
+    drive_and_validate(chk, "all+arb", "arbitrary", n, seed, {"arbitrary": ["C19"]}, "C19.arbitrary",
+                       shards=8)
+    return ("the crate's Arbitrary implementations for ctap1::Request, ctap2::Request and authenticator::Request run on "
+            "all-zero / all-0xFF inputs of 19 boundary lengths, all 256 single-byte-repeated patterns at two lengths and "
+            "seeded random strings biased towards UTF-8 lead / continuation bytes and ill-formed sequences; each run is "
+            "one trace event (Generate, then dispatch on a recording mock) validated by TLC: the outcome is 'bytes ran "
+            "out' or a value satisfying ValidRequest (UTF-8 of every text member evaluated by the specification on the "
+            "raw bytes, capacities, counts, tables) that was formatted, cloned, compared and dispatched to exactly its "
+            "handler.  Decided by trace validation only: how arbitrary::Unstructured consumes bytes is not modelled")
+
+
+PLANS.update({"C19": plan_C19})
